@@ -2,6 +2,9 @@
 import containers, observer
 TUS = containers.TUS
 def run(facts, rep, tier):
+    if tier == 'thorough':
+        containers.MODEL_BOUND.update(ring=8, sizes=5)          # deeper bounded decisions: every buffer state with capacity <= 8, sizes <= 5
+        rep.note('small-model bounds raised for the thorough tier: ring capacity <= 8, sizes <= 5')
     res = containers.ring_analyse(facts, rep)
     observer.emit(facts, rep, ['RB.3', 'RB.6', 'RB.7', 'RB.8', 'RB.9'], {'RB.3': 28, 'RB.6': 40, 'RB.7': 40, 'RB.8': 14, 'RB.9': 14}, text=containers.RB_TEXT, res=res)
     rep.count('ring_functions', res.get('_nfn', 0))
